@@ -55,7 +55,7 @@ type Device struct {
 	lastAnalogValue    map[string]map[evdev.EvCode]float64
 
 	actionTracker map[config.Action]bool
-	ccZeroed      map[byte]bool // 1: positive, 2: negative
+	ccZeroed      map[[2]byte]bool // (channel, controller): 0 was sent and nothing else since
 	keyTracker    map[evdev.EvCode]struct{}
 	sigs          chan os.Signal
 
@@ -142,7 +142,7 @@ func NewDevice(
 		analogNoteTracker:  make(map[string][2]byte, 32),
 		activeNotesCounter: activeNoteCounter,
 		actionTracker:      make(map[config.Action]bool, 16),
-		ccZeroed:           make(map[byte]bool, 32),
+		ccZeroed:           make(map[[2]byte]bool, 32),
 		lastAnalogValue:    lastAnalogValue,
 
 		actionsPress:   actionsPress,
